@@ -150,6 +150,16 @@ def aeval(e, env, depth=0):
         if k != 0:
             raise Undecidable('the pulse counter is read after %d pulses of the object were created' % k)
         return aeval(e.args[0], env, depth + 1)
+    if isinstance(e, ast.Call) and norm(e.func) == 'self.idx' and len(e.args) == 1 and not e.keywords:
+        # self.idx(0) / self.idx(1): what the properties idx_1 / idx_2 return
+        k = aeval(e.args[0], env, depth + 1)
+        if k in (0, 1) and 'self.idx_%d' % (k + 1) in env:
+            return env['self.idx_%d' % (k + 1)]
+    mo_ = re.match(r'^self\.conn\[([01])\]\.idx$', norm(e.func)) if isinstance(e, ast.Call) else None
+    if mo_ and len(e.args) == 1 and norm(e.args[0]) == 'self':
+        # the not-grounded arm of Geobj.idx(K), written out by the walk (on a grounded end the path is not feasible:
+        # its test of is_ground decides that, whatever is returned here)
+        return env['self.idx_%d' % (int(mo_.group(1)) + 1)]
     if isinstance(e, ast.Call) and isinstance(e.func, ast.Name) and e.func.id == 'abs' and len(e.args) == 1:
         return abs(aeval(e.args[0], env, depth + 1))
     if isinstance(e, ast.Call) and isinstance(e.func, ast.Name) and e.func.id in ('int', 'bool') and len(e.args) == 1:
